@@ -53,7 +53,7 @@ m = {
         "add_only": True,
     },
     "engines": [{"name": "pwsa", "path": "/verif/pwsa", "serves_properties": sorted(PROPS),
-                 "kind_free_text": "repository-specific static analyser on the standard-library ast module: loader/symbol tables, receiver typing, statement-level CFG with small-state path exploration, level/index-kind/primitive domains, ~40 rules, exact symbolic folding of operator constructors"}],
+                 "kind_free_text": "repository-specific static analyser on the standard-library ast module: loader/symbol tables, receiver typing, statement-level CFG with small-state path exploration, level/index-kind/primitive domains, ~70 rules, AST see-through for refactoring helpers, abstract summaries of the einsum-string generators, exact symbolic folding of operator constructors"}],
     "checks": checks,
     "notes": "exit 0 = all obligations hold or deviate only in /verif/known_findings.json entries (printed as KNOWN-FINDING lines); exit 1 = unlisted violation (VIOLATION property=<id> replay=<path>); exit 2 = ANALYSIS-ERROR (parse failure, vanished anchor, non-vacuity floor). Repairs of genuine defects are the unguarded `fix:` commits in /repo listed under `fixed` in known_findings.json.",
     "not_applicable": [
